@@ -92,9 +92,11 @@ type aresp struct {
 	Mode    string // cl, chunked, close, none
 	Body    []byte
 	Interim bool
-	Trailer bool
-	Hdrs    [][2]string
-	Over    bool // body exceeds MaxResponseBodySize
+	// Interim2: the 100 Continue is sent twice
+	Interim2 bool
+	Trailer  bool
+	Hdrs     [][2]string
+	Over     bool // body exceeds MaxResponseBodySize
 }
 
 type ccfg struct {
@@ -248,6 +250,7 @@ func genResp(r *mon.Rand, i int, method string, last bool, limit bool) *aresp {
 	}
 	p.Body = wire.PosBody(i+7, size)
 	p.Interim = r.Chance(8)
+	p.Interim2 = p.Interim && r.Chance(3)
 	p.Hdrs = append(p.Hdrs, [2]string{"X-R", fmt.Sprint(i)})
 	for k := r.Intn(3); k > 0; k-- {
 		p.Hdrs = append(p.Hdrs, [2]string{r.Str("X-S", "Set-Cookie", "Cache-Control"), r.Str("v1", "a=b; Path=/", "no-cache, x")})
@@ -269,6 +272,11 @@ func (p *aresp) wire(r *mon.Rand, method string) []byte {
 	var w bytes.Buffer
 	if p.Interim {
 		w.WriteString("HTTP/1.1 100 Continue\r\n\r\n")
+		if p.Interim2 {
+			// (a server may repeat the interim response, e.g. one from a gateway and one
+			// from the origin; a client has to get past one or more of them)
+			w.WriteString("HTTP/1.1 100 Continue\r\n\r\n")
+		}
 	}
 	fmt.Fprintf(&w, "HTTP/1.1 %d X\r\n", p.Status)
 	for _, h := range p.Hdrs {
@@ -392,7 +400,7 @@ func oneConn(w *mon.W, c *mon.Case, getC func(ccfg) *cengine, srv *sview) {
 		var ds []string
 		for i := range reqs {
 			a, p := reqs[i], resps[i]
-			ds = append(ds, fmt.Sprintf("%s %s?%s#%s hdrs=%q body=%s/%d skipbody=%v -> %d %s/%d interim=%v trailer=%v over=%v", a.Method, a.Path, a.Query, a.Frag, a.Hdrs, a.BodyMode, len(a.Body), a.SkipBody, p.Status, p.Mode, len(p.Body), p.Interim, p.Trailer, p.Over))
+			ds = append(ds, fmt.Sprintf("%s %s?%s#%s hdrs=%q body=%s/%d skipbody=%v -> %d %s/%d interim=%v trailer=%v over=%v", a.Method, a.Path, a.Query, a.Frag, a.Hdrs, a.BodyMode, len(a.Body), a.SkipBody, p.Status, p.Mode, len(p.Body), map[bool]int{true: 1}[p.Interim]+map[bool]int{true: 1}[p.Interim2], p.Trailer, p.Over))
 		}
 		if die > 0 {
 			ds = append(ds, fmt.Sprintf("(the peer closes the idle connection after exchange %d)", die-1))
